@@ -63,6 +63,14 @@ fn main() {
     let capl = if quick { 2_000_000 } else { 100_000_000 };
     ctx.run_slice(Slice::new(format!("lax-dagger[{} first {}]", lspec.name(), capl.min(lu.count())), lu.count().min(capl), |i, loc| check_lax_dagger(&lu.get(i), loc)));
     let _ = POpen::<u8, u8>::empty();
+    // dagger laws and fusion on larger inputs: structured diagrams and the structured gluing pairs (long legs)
+    let st: Vec<_> = ohmc::props::structured::shapes(4).into_iter().map(|x| x.1).collect();
+    ctx.run_slice(Slice::new(format!("dagger-structured[{} diagrams]", st.len()), st.len() as u64, |i, loc| check_dagger::<B>(&st[i as usize], loc)));
+    let st2: Vec<_> = ohmc::props::structured::shapes(2).into_iter().map(|x| x.1).collect();
+    let n2 = st2.len() as u64;
+    ctx.run_slice(Slice::new(format!("dagger-pairs-structured[{}^2]", n2), n2 * n2, |i, loc| check_dagger_pair::<B>(&st2[(i / n2) as usize], &st2[(i % n2) as usize], loc)));
+    let gp: Vec<_> = ohmc::props::structured::gluing_pairs(8, 5).into_iter().filter(|p| p.1.edges.is_empty() && p.2.edges.is_empty()).collect();
+    ctx.run_slice(Slice::new(format!("fusion-long-legs[{} cospan pairs, up to {} nodes]", gp.len(), gp.iter().map(|p| p.1.nodes.len() + p.2.nodes.len()).max().unwrap_or(0)), gp.len() as u64, |i, loc| check_fusion::<B>(&gp[i as usize].1, &gp[i as usize].2, loc)).heavy());
     let meta = Meta {
         rule: "every diagram (dagger: exact swap, involution), every pair (dagger vs tensor exactly, vs composition up to iso), every (leg, declared codomain, leg, declared codomain, node list) for the acceptance condition of spider/half_spider (strict inherent, strict trait, lax), every pair of type-matching labelled cospans for fusion (strict and lax), all pairs of object lists for identity/symmetry-as-spider".into(),
         bounds: "dagger: <=3 nodes, <=1-2 edges; pairs: <=2 nodes <=1 edge; legs of length <=2 (quick) / <=3 into codomains <=3, node lists <=3 over 2 labels; cospans: <=3 nodes, legs <=3".into(),
